@@ -354,3 +354,35 @@ def pat_bindings(q):
             y = y["pat"]
         out.append(y["name"] if y["k"] == "Binding" else None)
     return out
+
+
+# ---- named temporaries ------------------------------------------------------------------------------------------------------------------
+def let_env(body):
+    """{hid: init expr} of the immutable simple `let x = init;` bindings of a body (closures included).  A rule that compares SHAPES uses it
+    (through `through_lets`) so that `let n = k.chars().count(); if a + n > b` reads like `if a + k.chars().count() > b`."""
+    env = {}
+    for n in walk(body):
+        if n.get("k") == "Let" and n.get("init") is not None and not n.get("els"):
+            q = n["pat"]
+            if q.get("k") == "Binding" and "Mut" not in (q.get("mode") or "").split(",")[-1] and not q.get("sub") and q.get("hid") is not None:
+                env[q["hid"]] = n["init"]
+    return env
+
+
+def through_lets(e, env, depth=6):
+    """copy of expression `e` in which every use of an immutable named temporary is replaced by its initialiser (transitively).  Sound for
+    shape comparison only when the initialiser reads nothing that is written between the `let` and the use; callers use it on conditions whose
+    operands are parameters, immutable locals and pure std calls."""
+    if not isinstance(e, dict) or depth <= 0:
+        return e
+    if e.get("k") == "Path" and e.get("path", {}).get("res") == "local" and e["path"].get("hid") in env:
+        return through_lets(env[e["path"]["hid"]], env, depth - 1)
+    out = {}
+    for k, v in e.items():
+        if isinstance(v, dict):
+            out[k] = through_lets(v, env, depth)
+        elif isinstance(v, list):
+            out[k] = [through_lets(x, env, depth) if isinstance(x, dict) else x for x in v]
+        else:
+            out[k] = v
+    return out
